@@ -163,6 +163,7 @@ static const std::vector<Exc>& exceptions() {
     {"Intersect::All", "maxdist", "skip-indep", "maxdist is a threshold: the first intersection does not depend on it, a NaN threshold gives an empty list (reported here as NaN)"},
     {"Intersect::All", "maxdist", "work-scales", "the number of intersections returned grows like (maxdist / circumference)^2: finite specials >= 1e9 m are legitimate hour-long computations, not hangs, and are not enumerated"},
     {"Geoid::CacheArea", "*", "skip-nan", "cache set-up function that validates its area: an undefined (NaN) bound is refused with GeographicErr, like a constructor argument"},
+    {"MagneticModel::", "t", "skip-indep", "MagneticModel.hpp: the field is linear in time within each model segment, so the rates of change are piecewise constant in t (they change from one segment to the next); a NaN time is mapped to the first segment"},
     {"UTMUPS::Forward", "*", "skip-indep", "UTMUPS.hpp: zone INVALID is 'equivalent to NaN'; an undefined zone makes every output NaN (k of a UPS point does not depend on lon otherwise)"},
   };
   return t;
